@@ -147,14 +147,6 @@ def run(tier):
         jobs.append(j)
     vlib.log("[C07] %d tail contexts, %d runs" % (len(ctxs), len(jobs)))
     res = vlib.run_pool(["lang"], jobs, workers=14, job_timeout=90)
-    # a run that did not answer in time is repeated alone with a generous limit before it counts as a hang (a loaded
-    # machine must not look like a defect); interrupt scenarios keep their own clock
-    slow = [j for j in jobs if res.get(j["id"], {}).get("status") == "hang" and not j.get("interrupt_ms")]
-    if slow:
-        again = vlib.run_pool(["lang"], slow, workers=2, job_timeout=600)
-        for j in slow:
-            if again.get(j["id"], {}).get("status") != "hang":
-                res[j["id"]] = again[j["id"]]
     frame_events, gc_runs = [], []
     peaks = {}
     tail_ok = 0
